@@ -37,6 +37,7 @@ ENGINE = {
  "C12": "liveness of every created node after every op (Weak::upgrade in the hook dump vs the model's reference-counting collection) on histories that drop node/var/observer handles in random orders and finally everything, plus the oracle (after the last stabilise every node is released, every closure dropped, no panic or abort)",
  "C13": "fault enumeration: a panic injected at every individual user-function invocation (node, fold, bind, cutoff functions and update handlers) of every stabilise of every generated history, followed by reads, a second stabilise and dropping everything; whole traces compared, plus the oracle (reads refused or fully propagated, second stabilise refuses, drops do not panic or abort)",
  "C19": "limit / reconfiguration / cycle / nested-stabilise / cross-state histories in both build profiles with the full state compared after every op, plus the oracle (HeightLimit exactly when the graph height exceeds the limit in force, set_max_height_allowed exact, cycles/nesting/foreign nodes panic with their diagnostic, handles droppable afterwards)",
+ "C14": "reads, change-callback / recompute / observability-callback logs and the full state dump (children vectors, index cells, invalid-children counters) on histories where the dependencies of an expert node are added and removed from the functions of its own children (join / bind / dynamic-sum idiom with shared, duplicate and invalidatable children), with static dependencies with and without callbacks, make_stale, invalidate, unobserve / re-observe and dependencies added from top level after the node ran, in both build profiles; oracle: no panic, observed values equal the reference sum (for the callback-fed flavour this is the callback-completeness clause), at most one recompute per stabilise and exactly one after make_stale, invalid only if a kept dependency is invalid or invalidate was called, invalidate reaches the dependants",
  "C20": "results of every memoised call, the underlying function's invocation log, bind runs, invalidations, reads and the full state dump (scope of every node) on histories that call memoised functions from top level and from (nested) bind closures, drop the returned handles, re-run the binds and stabilise, plus a scripted family where weak_memoize_fn itself is called inside a bind closure; oracle: a key whose node is still allocated returns that node without invoking the function, a freed key invokes it again, nodes created at top level carry the creation scope, observed values stay valid and equal the reference after bind re-runs",
  "C11": "the full engine state (hook dump) after every single op, model vs crate, plus the audit (edges symmetric with matching indices, heights, heap = necessary and stale once each, counters, handler counts) evaluated on the crate's dumps",
 }
